@@ -549,6 +549,10 @@ func (ctx *context) popCompareEqualityAndPush(
 		ctx.compareNodesetsAndPush(boolCompare, litCompare, numCompare,
 			operator, op1, op2)
 
+	case isDatumSlice(op1) || isDatumSlice(op2):
+		ctx.compareDatumSlicesAndPush(boolCompare, litCompare, numCompare,
+			op1, op2)
+
 	case isBool(op1) || isBool(op2):
 		ctx.pushDatum(NewBoolDatum(boolCompare(op1, op2)))
 
@@ -565,6 +569,42 @@ func (ctx *context) popCompareEqualityAndPush(
 			operator, op1.name(), operator, op2.name()), "")
 
 	}
+}
+
+// Comparison where one or both operands is the value of a leaf-list (a
+// datum slice).  As for nodesets the comparison is existential: it is TRUE
+// if it holds for at least one member (or one pair of members), so it is
+// FALSE for an empty leaf-list whatever the operator.  Each pair is compared
+// with the usual precedence of boolean over number over string.
+func (ctx *context) compareDatumSlicesAndPush(
+	boolCompare datumCompFn,
+	litCompare datumCompFn,
+	numCompare datumCompFn,
+	op1, op2 Datum,
+) {
+	set1, set2 := []Datum{op1}, []Datum{op2}
+	if isDatumSlice(op1) {
+		set1 = op1.DatumSlice("compare (operand1)")
+	}
+	if isDatumSlice(op2) {
+		set2 = op2.DatumSlice("compare (operand2)")
+	}
+	for _, d1 := range set1 {
+		for _, d2 := range set2 {
+			compare := litCompare
+			switch {
+			case isBool(d1) || isBool(d2):
+				compare = boolCompare
+			case isNum(d1) || isNum(d2):
+				compare = numCompare
+			}
+			if compare(d1, d2) {
+				ctx.pushDatum(NewBoolDatum(true))
+				return
+			}
+		}
+	}
+	ctx.pushDatum(NewBoolDatum(false))
 }
 
 // Unlike for the equality operators where we need to handle each type
@@ -588,6 +628,10 @@ func (ctx *context) popCompareRelationalAndPush(
 	case op1IsNodeset || op2IsNodeset:
 		ctx.compareNodesetsAndPush(boolFn, litFn, numFn,
 			operator, op1, op2)
+
+	case isDatumSlice(op1) || isDatumSlice(op2):
+		// Relational operators compare everything as numbers.
+		ctx.compareDatumSlicesAndPush(numFn, numFn, numFn, op1, op2)
 
 	default:
 		// Unlike equality operators ('=' and '!='), if neither operand is a
